@@ -8,6 +8,7 @@ import (
 	"net"
 	"reflect"
 	"regexp"
+	"sort"
 	"strings"
 	"time"
 	"unicode/utf8"
@@ -365,6 +366,68 @@ func nonNull(vals []*aval) []*aval {
 	return r
 }
 
+// planStructMap: a struct standing for a map<text,V> value with the given (identifier) keys, declared in the given structLayout mode
+func (g *gen) planStructMap(t *ctype, ks, vs []*aval, mode int) *rep {
+	r := &rep{t: t, kind: "structmap"}
+	names := make([]string, len(ks))
+	fts := make([]reflect.Type, len(ks))
+	for i, k := range ks {
+		fr := g.plan(t.val, []*aval{vs[i]}, false, false)
+		r.fields = append(r.fields, fr)
+		names[i], fts[i] = string(k.bs), fr.gt
+	}
+	r.gt, r.fidx, r.fnames = g.structLayout(names, fts, mode, false, false)
+	return r
+}
+
+// inSourceOrder: the abstract value with the entries of every map listed in the order the SOURCE enumerates them, where the source fixes an
+// order: a struct used as a CQL map is walked in declaration order (whatever order the generator listed the entries in).  Entry order is not
+// part of a map value; the byte-exact comparisons (encoder vs specification serializer vs model encoder) need the value in the order
+// the encoder saw.  Go maps enumerate in no fixed order: those cases are flagged `unordered` and compared up to entry order instead.
+func inSourceOrder(r *rep, a *aval) *aval {
+	if a.kind == "null" {
+		return a
+	}
+	switch {
+	case r.kind == "ptr":
+		return inSourceOrder(r.inner, a)
+	case r.s != nil:
+		return a
+	case r.kind == "slice" || r.kind == "array" || r.kind == "ifaceslice":
+		c := &aval{kind: a.kind, elems: []*aval{}}
+		for _, e := range a.elems {
+			c.elems = append(c.elems, inSourceOrder(r.elem, e))
+		}
+		return c
+	case r.kind == "map":
+		c := &aval{kind: "map"}
+		for _, p := range a.pairs {
+			c.pairs = append(c.pairs, [2]*aval{inSourceOrder(r.key, p[0]), inSourceOrder(r.val, p[1])})
+		}
+		return c
+	case r.kind == "structmap":
+		c := &aval{kind: "map", pairs: make([][2]*aval, len(a.pairs))}
+		order := make([]int, len(a.pairs)) // entries sorted by the index of the struct field that holds them
+		for i := range order {
+			order[i] = i
+		}
+		sort.SliceStable(order, func(x, y int) bool { return r.fieldIndex(order[x]) < r.fieldIndex(order[y]) })
+		for pos, i := range order {
+			c.pairs[pos] = [2]*aval{a.pairs[i][0], inSourceOrder(r.fields[i], a.pairs[i][1])}
+		}
+		return c
+	default:
+		c := &aval{kind: a.kind, elems: []*aval{}}
+		for i, e := range a.elems {
+			if i < len(r.fields) {
+				e = inSourceOrder(r.fields[i], e)
+			}
+			c.elems = append(c.elems, e)
+		}
+		return c
+	}
+}
+
 // holdsIface: a comparable type whose values may still be unhashable (an interface inside an array / struct can hold a slice)
 func holdsIface(t reflect.Type) bool {
 	switch t.Kind() {
@@ -455,15 +518,7 @@ func (g *gen) plan(t *ctype, vals []*aval, needComparable bool, preferred bool) 
 				}
 			}
 			if okKeys {
-				r = &rep{t: t, kind: "structmap"}
-				names := make([]string, len(ks))
-				fts := make([]reflect.Type, len(ks))
-				for i, k := range ks {
-					fr := g.plan(t.val, []*aval{vs[i]}, false, false)
-					r.fields = append(r.fields, fr)
-					names[i], fts[i] = string(k.bs), fr.gt
-				}
-				r.gt, r.fidx, r.fnames = g.structLayout(names, fts, g.pick(3), false, false)
+				r = g.planStructMap(t, ks, vs, g.pick(3))
 				break
 			}
 		}
